@@ -104,13 +104,13 @@ var errInjectedWrite = errors.New("injected write failure")
 
 type gConn struct {
 	closeErr error
-	c       *gctl
-	mu      sync.Mutex
-	closed  bool
-	closeCh chan struct{}
+	c        *gctl
+	mu       sync.Mutex
+	closed   bool
+	closeCh  chan struct{}
 	// free-running mode
-	inQ  chan []byte
-	outQ chan []byte
+	inQ       chan []byte
+	outQ      chan []byte
 	failEvery int
 	nwrites   int32
 }
@@ -267,39 +267,134 @@ func (g *gCollector) Close() error {
 }
 
 // gAgent delegates to a real Agent; every method entry and the wrapped handler's entry/exit are gates.
+// It also keeps the agent's own history - every call with its result and the events the agent emitted during it,
+// numbered at entry - so that the Agent part of a client run can be checked against AgentCore (AgentTrace).
 type gAgent struct {
 	c        *gctl
 	a        *stun.Agent
 	closeErr error
+
+	hmu    sync.Mutex
+	seq    int
+	calls  []*agentCall
+	active map[int64][]*agentCall // goroutine -> agent calls in progress (innermost last)
 }
+
+type agentCall struct {
+	Seq  int       `json:"seq"`
+	Op   string    `json:"op"`
+	ID   int       `json:"id"`
+	D    int64     `json:"d"`
+	T    int64     `json:"t"`
+	H    int       `json:"h"`
+	Res  string    `json:"res"`
+	Evs  []agEvent `json:"evs"`
+	done bool
+}
+
+func agentID(id [stun.TransactionIDSize]byte) int {
+	if k := idIndex(id); k == 1 || k == 2 {
+		return k
+	}
+	return 3 // every other id
+}
+
+func (g *gAgent) begin(op string, id int, d, t int64, h int) *agentCall {
+	g.hmu.Lock()
+	defer g.hmu.Unlock()
+	if g.active == nil {
+		g.active = map[int64][]*agentCall{}
+	}
+	g.seq++
+	c := &agentCall{Seq: g.seq, Op: op, ID: id, D: d, T: t, H: h, Evs: []agEvent{}}
+	g.calls = append(g.calls, c)
+	gid := goid()
+	g.active[gid] = append(g.active[gid], c)
+	return c
+}
+
+func (g *gAgent) end(c *agentCall, err error) {
+	g.hmu.Lock()
+	defer g.hmu.Unlock()
+	c.Res, c.done = agResult(err), true
+	gid := goid()
+	if st := g.active[gid]; len(st) > 0 {
+		g.active[gid] = st[:len(st)-1]
+	}
+}
+
+func (g *gAgent) noteEvent(e stun.Event) {
+	g.hmu.Lock()
+	defer g.hmu.Unlock()
+	st := g.active[goid()]
+	if len(st) == 0 {
+		return
+	}
+	c := st[len(st)-1]
+	kind := agKind(e, e.Message)
+	c.Evs = append(c.Evs, agEvent{H: 1, ID: agentID(e.TransactionID), Kind: kind})
+}
+
+// history returns the complete prefix of the agent's history: the calls numbered before the first one that has not
+// returned (an outer call that is still delivering events has had its effect, so nothing after it can be judged)
+func (g *gAgent) history() []*agentCall {
+	g.hmu.Lock()
+	defer g.hmu.Unlock()
+	out := []*agentCall{}
+	for _, c := range g.calls { // appended in Seq order
+		if !c.done {
+			break
+		}
+		out = append(out, c)
+	}
+	return out
+}
+
+func vunits(t time.Time) int64 { return t.Unix() - 2000000 }
 
 func (g *gAgent) Start(id [stun.TransactionIDSize]byte, d time.Time) error {
 	g.c.log(map[string]interface{}{"k": "agstart", "p": g.c.procName(), "id": idIndex(id)})
 	g.c.arrive("agent.Start", nil)
-	return g.a.Start(id, d)
+	c := g.begin("start", agentID(id), vunits(d), 0, 0)
+	err := g.a.Start(id, d)
+	g.end(c, err)
+	return err
 }
 func (g *gAgent) Stop(id [stun.TransactionIDSize]byte) error {
 	g.c.arrive("agent.Stop", nil)
-	return g.a.Stop(id)
+	c := g.begin("stop", agentID(id), 0, 0, 0)
+	err := g.a.Stop(id)
+	g.end(c, err)
+	return err
 }
 func (g *gAgent) Process(m *stun.Message) error {
 	g.c.arrive("agent.Process", nil)
-	return g.a.Process(m)
+	c := g.begin("process", agentID(m.TransactionID), 0, 0, 0)
+	err := g.a.Process(m)
+	g.end(c, err)
+	return err
 }
 func (g *gAgent) Collect(t time.Time) error {
 	g.c.arrive("agent.Collect", nil)
-	return g.a.Collect(t)
+	c := g.begin("collect", 0, 0, vunits(t), 0)
+	err := g.a.Collect(t)
+	g.end(c, err)
+	return err
 }
 func (g *gAgent) Close() error {
 	g.c.arrive("agent.Close", nil)
+	c := g.begin("close", 0, 0, 0, 0)
 	err := g.a.Close()
+	g.end(c, err)
 	if g.closeErr != nil {
 		return g.closeErr
 	}
 	return err
 }
 func (g *gAgent) SetHandler(h stun.Handler) error {
-	return g.a.SetHandler(func(e stun.Event) {
+	c := g.begin("sethandler", 0, 0, 0, 1)
+	err := g.a.SetHandler(func(e stun.Event) {
+		g.noteEvent(e)
 		kind := evKind(e)
 		id := idIndex(e.TransactionID)
 		g.c.log(map[string]interface{}{"k": "cb", "p": g.c.procName(), "kind": kind, "id": id, "t": g.c.now()})
@@ -308,6 +403,8 @@ func (g *gAgent) SetHandler(h stun.Handler) error {
 		g.c.log(map[string]interface{}{"k": "cbexit", "p": g.c.procName(), "kind": kind, "id": id})
 		g.c.arrive("cb.exit", map[string]interface{}{"kind": kind, "id": id})
 	})
+	g.end(c, err)
+	return err
 }
 
 func evKind(e stun.Event) string {
